@@ -94,7 +94,7 @@ def font (req : Json) : R Reply := do
       let smp := maxp shadow
       let okMaxp := oel == smp.maxComponentElements && odp == smp.maxComponentDepth
       if !okMaxp then bad := bad ++ ["<maxp>"]
-      return { model, holds := bad.isEmpty, info := strsJ bad, hyp := Json.bool (goodCert gs (depthCert gs)) }
+      return { model, holds := bad.isEmpty, info := strsJ bad, hyp := Json.bool (wfCert gs) }
 
 def asQPt (j : Json) : R QPt := do
   match ← asArr j with
